@@ -99,6 +99,18 @@ reg(
     "DESIGN.md §3 C19",
 )
 
+reg(
+    "C18",
+    "fault_enumeration",
+    "fault injection enumerated over every read call, every chunk boundary (nested loads included) and truncation points of every fixture and of generated nested files",
+    "For all 52 fixtures and 4 generated files with nested loads, a fault is injected at each read call index and at each chunk boundary "
+    "(counted across nested loads), the file is truncated at every chunk boundary and inside headers/payloads, and semantic failures are "
+    "provoked; for both initial values of the strictness flag and for stream and path access. After every call the flag must equal its "
+    "initial value, every file the library opened must be closed, and strict mode must still reject out-of-range values.",
+    "Observation by wrapping Path.open / rv.readers.reader.chunks from the check process; no source hooks.",
+    "DESIGN.md §3 C18",
+)
+
 NOT_APPLICABLE = {}
 
 ALL = ["C%02d" % i for i in range(1, 21)]
